@@ -55,6 +55,9 @@ pub struct Scenario {
     pub draw: u8,
     /// drop the first cleanup client after this many deletions
     pub stop_after_dels: Option<usize>,
+    /// instead of dropping the client, make that delete request fail: 1 = error without
+    /// performing it, 2 = perform it and then report an error (0 = drop the client)
+    pub del_fault: u8,
 }
 
 fn task_uuid(n: u128) -> Uuid {
@@ -82,6 +85,7 @@ struct StopAfterDels<'a> {
     d: usize,
     seen: usize,
     dropped: bool,
+    fault: u8,
 }
 
 impl DecisionSource for StopAfterDels<'_> {
@@ -90,7 +94,11 @@ impl DecisionSource for StopAfterDels<'_> {
         let (c, label) = &enabled[ch.which % enabled.len()];
         if *c == self.client && label.starts_with("Del") && !self.dropped {
             if self.seen == self.d {
-                ch.drop_client = true;
+                if self.fault == 0 {
+                    ch.drop_client = true;
+                } else {
+                    ch.decision = self.fault;
+                }
                 self.dropped = true;
             } else {
                 self.seen += 1;
@@ -109,7 +117,7 @@ pub struct RunInfo {
 
 pub fn run_schedule(tag: &str, index: u64, sc: &Scenario, source: &mut dyn DecisionSource, out: &mut CaseOut, extra: serde_json::Value) -> Option<RunInfo> {
     let world = World::new();
-    let mut replay = json!({"stratum": tag, "index": index, "layout": format!("{:?}", sc.layout), "roles": format!("{:?}", sc.roles), "page_size": sc.page_size, "draw": sc.draw, "stop_after_dels": sc.stop_after_dels, "extra": extra});
+    let mut replay = json!({"stratum": tag, "index": index, "layout": format!("{:?}", sc.layout), "roles": format!("{:?}", sc.roles), "page_size": sc.page_size, "draw": sc.draw, "stop_after_dels": sc.stop_after_dels, "del_fault": sc.del_fault, "extra": extra});
     // ---- sequential layout ----
     set_random_source(Some(Box::new(|| Some(255))));
     let mut chain_ids: Vec<Uuid> = vec![];
@@ -196,7 +204,7 @@ pub fn run_schedule(tag: &str, index: u64, sc: &Scenario, source: &mut dyn Decis
     }
     let o = match (sc.stop_after_dels, first_cleanup) {
         (Some(d), Some(c)) => {
-            let mut w = StopAfterDels { inner: source, client: c, d, seen: 0, dropped: false };
+            let mut w = StopAfterDels { inner: source, client: c, d, seen: 0, dropped: false, fault: sc.del_fault };
             run_sched(&gates, futs, &mut w, 8000)
         }
         _ => run_sched(&gates, futs, source, 8000),
@@ -450,30 +458,33 @@ pub fn run(ctx: &Ctx) -> Outcome {
 
     if want("dfs-cleanup-vs-add") {
         // exhaustive interleavings of {explicit cleanup || one add_version} on 6 layouts
-        let scs = layouts_small().into_iter().map(|l| Scenario { layout: l, roles: vec![Role::Cleanup, Role::Adder { payloads: 1 }], page_size: 2, draw: 255, stop_after_dels: None }).collect();
+        let scs = layouts_small().into_iter().map(|l| Scenario { layout: l, roles: vec![Role::Cleanup, Role::Adder { payloads: 1 }], page_size: 2, draw: 255, stop_after_dels: None, del_fault: 0 }).collect();
         dfs_run("dfs-cleanup-vs-add", scs, ctx.tier.pick(4000, 200_000), &mut acc);
     }
     if want("dfs-natural") {
         // mandatory stratum: two racing adders, the draw left below 255 (cleanup arises by itself)
         let scs = vec![
-            Scenario { layout: Layout { ages: vec![1], snapshots: vec![], strays: vec![] }, roles: vec![Role::Adder { payloads: 1 }, Role::Adder { payloads: 1 }], page_size: 2, draw: 200, stop_after_dels: None },
-            Scenario { layout: Layout { ages: vec![1, 1], snapshots: vec![1], strays: vec![] }, roles: vec![Role::Adder { payloads: 1 }, Role::Adder { payloads: 1 }], page_size: 2, draw: 200, stop_after_dels: None },
+            Scenario { layout: Layout { ages: vec![1], snapshots: vec![], strays: vec![] }, roles: vec![Role::Adder { payloads: 1 }, Role::Adder { payloads: 1 }], page_size: 2, draw: 200, stop_after_dels: None, del_fault: 0 },
+            Scenario { layout: Layout { ages: vec![1, 1], snapshots: vec![1], strays: vec![] }, roles: vec![Role::Adder { payloads: 1 }, Role::Adder { payloads: 1 }], page_size: 2, draw: 200, stop_after_dels: None, del_fault: 0 },
         ];
         dfs_run("dfs-natural", scs, ctx.tier.pick(8000, 400_000), &mut acc);
     }
     if want("dfs-cleanup-vs-cleanup") {
         let scs = vec![
-            Scenario { layout: Layout { ages: vec![300, 250, 200, 1], snapshots: vec![2], strays: vec![2] }, roles: vec![Role::Cleanup, Role::Cleanup], page_size: 3, draw: 255, stop_after_dels: None },
-            Scenario { layout: Layout { ages: vec![300, 1], snapshots: vec![1], strays: vec![] }, roles: vec![Role::Cleanup, Role::Snapshotter], page_size: 2, draw: 255, stop_after_dels: None },
+            Scenario { layout: Layout { ages: vec![300, 250, 200, 1], snapshots: vec![2], strays: vec![2] }, roles: vec![Role::Cleanup, Role::Cleanup], page_size: 3, draw: 255, stop_after_dels: None, del_fault: 0 },
+            Scenario { layout: Layout { ages: vec![300, 1], snapshots: vec![1], strays: vec![] }, roles: vec![Role::Cleanup, Role::Snapshotter], page_size: 2, draw: 255, stop_after_dels: None, del_fault: 0 },
         ];
         dfs_run("dfs-cleanup-vs-cleanup", scs, ctx.tier.pick(3000, 100_000), &mut acc);
     }
     if want("stop-after-deletion") {
         // a cleanup that stops after any of its deletions, for every d, sequentially and against an adder
         let mut scs = vec![];
+        // ... or whose d-th delete request fails (not performed / performed and reported failed)
         for d in 0..6 {
-            scs.push(Scenario { layout: Layout { ages: vec![400, 390, 380, 370, 1], snapshots: vec![2, 4], strays: vec![1, 4] }, roles: vec![Role::Cleanup], page_size: 3, draw: 255, stop_after_dels: Some(d) });
-            scs.push(Scenario { layout: Layout { ages: vec![400, 390, 380, 1], snapshots: vec![3], strays: vec![3] }, roles: vec![Role::Cleanup, Role::Adder { payloads: 1 }], page_size: 3, draw: 255, stop_after_dels: Some(d) });
+            for fault in 0..3u8 {
+                scs.push(Scenario { layout: Layout { ages: vec![400, 390, 380, 370, 1], snapshots: vec![2, 4], strays: vec![1, 4] }, roles: vec![Role::Cleanup], page_size: 3, draw: 255, stop_after_dels: Some(d), del_fault: fault });
+                scs.push(Scenario { layout: Layout { ages: vec![400, 390, 380, 1], snapshots: vec![3], strays: vec![3] }, roles: vec![Role::Cleanup, Role::Adder { payloads: 1 }], page_size: 3, draw: 255, stop_after_dels: Some(d), del_fault: fault });
+            }
         }
         let (lo, hi) = range(scs.len() as u64 * ctx.tier.pick(20, 400));
         let per = ctx.tier.pick(20, 400);
@@ -506,7 +517,7 @@ pub fn run(ctx: &Ctx) -> Outcome {
         run_cases(&mut acc, "cleanup-vs-adder-with-snapshot", hi - lo, |i| {
             let i = i + lo;
             let mut rng = Rng::derive(seed, "c10-cas", i);
-            let sc = Scenario { layout: layouts[rng.below(layouts.len())].clone(), roles: vec![Role::Cleanup, Role::AdderSnapshot, Role::Cleanup], page_size: 2 + rng.below(2), draw: 255, stop_after_dels: None };
+            let sc = Scenario { layout: layouts[rng.below(layouts.len())].clone(), roles: vec![Role::Cleanup, Role::AdderSnapshot, Role::Cleanup], page_size: 2 + rng.below(2), draw: 255, stop_after_dels: None, del_fault: 0 };
             let mut out = CaseOut::new();
             let mut src: Box<dyn DecisionSource> = match &replay_sched {
                 Some(s) => Box::new(ReplaySource { clients: s.clone() }),
@@ -544,7 +555,7 @@ pub fn run(ctx: &Ctx) -> Outcome {
             if natural {
                 roles[0] = Role::Adder { payloads: 1 + rng.below(2) };
             }
-            let sc = Scenario { layout: Layout { ages, snapshots, strays }, roles, page_size: 2 + rng.below(3), draw: if natural { 200 } else { 255 }, stop_after_dels: if rng.chance(1, 6) { Some(rng.below(4)) } else { None } };
+            let sc = Scenario { layout: Layout { ages, snapshots, strays }, roles, page_size: 2 + rng.below(3), draw: if natural { 200 } else { 255 }, stop_after_dels: if rng.chance(1, 5) { Some(rng.below(4)) } else { None }, del_fault: rng.below(3) as u8 };
             let mut out = CaseOut::new();
             let mut src: Box<dyn DecisionSource> = match &replay_sched {
                 Some(s) => Box::new(ReplaySource { clients: s.clone() }),
